@@ -234,9 +234,11 @@ class TranslatorSMT2(Translator):
                 else:
                     raise NotImplementedError("Unsupported OP yet: %s" % expr.op)
         elif expr.op == 'parity':
-            arg = bv_extract(7, 0, res)
+            # Parity of the low byte (of the whole value if narrower)
+            nb_bits = min(8, expr.args[0].size)
+            arg = bv_extract(nb_bits - 1, 0, res)
             res = bit_vec_val(1, 1)
-            for i in range(8):
+            for i in range(nb_bits):
                 res = bvxor(res, bv_extract(i, i, arg))
         elif expr.op == '-':
             res = bvneg(res)
